@@ -11,3 +11,6 @@ const RaceEnabled = true
 
 func raceAcquire(p *uint64)      { runtime.RaceAcquire(unsafe.Pointer(p)) }
 func raceReleaseMerge(p *uint64) { runtime.RaceReleaseMerge(unsafe.Pointer(p)) }
+
+func raceDisable() { runtime.RaceDisable() }
+func raceEnable()  { runtime.RaceEnable() }
